@@ -97,7 +97,11 @@ def replay(args):
         init["full"] = h.get("full", False)
         for f in init["files"]:
             cat[f] = full_file(f) if (init["kind"] == "dsk" and init["full"]) else stored_file(f, init.get("big", False))
-        b = materialise(init)
+        try:
+            b = materialise(init)
+        except Exception as e:
+            return {"id": hid, "init": {"kind": h["init"]["kind"], "big": h["init"]["big"], "files": h["init"]["files"]}, "cat": [], "events": [],
+                    "construct_error": "%s: %s" % (type(e).__name__, str(e)[:80])}
         if b is not None:
             open(t, "wb").write(b)
         for k, cmd in enumerate(h["cmds"]):
